@@ -12,9 +12,9 @@ from mc.ref import trace as rtrace, hexdump as rhex
 PROPERTY = 'C15'
 LEVEL = 'exploration'
 ENGINE = 'E1'
-TECHNIQUE = ('bounded-exhaustive enumeration of trace buffers: all entry sequences of length <= 2 (thorough 3) over a 31-shape '
+TECHNIQUE = ('bounded-exhaustive enumeration of trace buffers: all entry sequences of length <= 2 (thorough 3) over a 35-shape '
              'entry alphabet (data lengths around every alignment and the 1024 limit, tags, exact/partial/unknown hashes, bad '
-             'trailers, missing pad) x 9 declared sizes x header variants, every truncation offset of 3 buffers, every input '
+             'trailers, missing and non-zero pad) x 9 declared sizes x header variants, every truncation offset of 3 buffers, every input '
              'length 0..31, every string of both shipped string files with exact and partial hash; real parse_trace_data vs. an '
              'independent decoder and string-file reader')
 LEVEL_TEXT = ('Every buffer in the product is decoded by the real code and by a reference decoder written from the statement; '
@@ -23,7 +23,7 @@ LEVEL_TEXT = ('Every buffer in the product is decoded by the real code and by a 
               'declared size reached) to occur before, between and after good entries.')
 LEVEL_NOTE = 'component names with embedded NUL+blank or non-ASCII bytes, and string-file lines beyond the shipped syntax, are not constrained'
 RULE = ('buffer = header variant x declared size in {0,31,32,exact,mid-entry,entry boundary,larger than data,2^32-1,one byte '
-        'short} x entry sequence (all of length 0..2 quick / 0..3 thorough over 31 shapes); truncation: every offset of 3 '
+        'short} x entry sequence (all of length 0..2 quick / 0..3 thorough over 35 shapes); truncation: every offset of 3 '
         'three-entry buffers; no-header inputs of every length 0..31; shipped: each of the 709/679 strings with exact hash and '
         'hash+100000 and specifier-count arguments. Non-trivial: at least one entry expected; distinct by buffer bytes.')
 ASSUMPTIONS = ['the literal text of header/entry/warning lines is pinned by the repository\'s own tests']
@@ -46,11 +46,11 @@ not a line
 """
 
 
-def entry(length, tag=rtrace.TAG_TRACE, h=100001, trailer_delta=0, pad=True, ts=0x1234, seq=0x0186, line=324, fill=0):
+def entry(length, tag=rtrace.TAG_TRACE, h=100001, trailer_delta=0, pad=True, ts=0x1234, seq=0x0186, line=324, fill=0, padfill=0):
     data = bytes((fill + i * 3) & 0xff for i in range(length))
     padn = (-length) % 4 if pad else 0
     total = 16 + length + padn + 4
-    return struct.pack('>HHHHII', ts, seq, length, tag, h, line) + data + b'\0' * padn + struct.pack('>I', (total + trailer_delta) & 0xffffffff)
+    return struct.pack('>HHHHII', ts, seq, length, tag, h, line) + data + bytes([padfill]) * padn + struct.pack('>I', (total + trailer_delta) & 0xffffffff)
 
 
 SHAPES = [
@@ -90,6 +90,12 @@ SHAPES = [
     ('t4linemax', dict(length=4, line=0xFFFFFFFF, ts=0xFFFF, seq=0xFFFF)),
     ('t4line31', dict(length=4, h=200002 + 0, line=0x80000001, seq=0x8000)),
     ('t4hashmax', dict(length=4, h=0xFFFFFFF0, line=0x7FFFFFFF)),
+    # the pad bytes behind unaligned data are skipped, whatever they hold (a wrapped buffer is not cleared): they are not
+    # part of the size word that follows them
+    ('t5padFF', dict(length=5, h=100001, padfill=0xFF)),
+    ('t1pad01', dict(length=1, h=100001, padfill=0x01)),
+    ('t6padAA', dict(length=6, h=200002, padfill=0xAA)),
+    ('t3binpad80', dict(length=3, tag=rtrace.TAG_BIN, h=1000010, padfill=0x80)),
 ]
 
 
